@@ -72,6 +72,7 @@ int main(int argc, char** argv) {
         wr(1, buf, k);
       }
     } else if (op == "s") usleep(v * 1000);
+    else if (op == "it") signal(SIGTERM, SIG_IGN);  // survive the first termination request
     else if (op == "ci") close(0);
     else if (op == "co") close(1);
     else if (op == "rep") {
